@@ -487,7 +487,12 @@ def confirm(pid, zx, sc, trace, viol, known, plan, seed, ranges, limit=3, pre=No
                     if same:
                         log("note: %s reproduced by running the same harness invocation again" % v["key"])
                         lines = process_prefix(trace, v["l"], ranges)[-200:]
-        if not same and v["prov"] == "concurrent":
+        conc_scen = False
+        try:
+            conc_scen = json.loads(scenario_slice(trace, v["l"])[0]).get("tag", "").startswith(("buildstress", "readstress"))
+        except Exception:
+            pass
+        if not same and (v["prov"] == "concurrent" or conc_scen):
             # schedule-dependent: the recorded execution itself is the evidence (the oracle is deterministic)
             log("note: %s was observed under concurrency and does not reproduce sequentially" % v["key"])
             lines = scenario_slice(trace, v["l"])
